@@ -742,6 +742,7 @@ func (e *Eval) atClauses(fr *Frame, cc *ssa.CallCommon, name, site, kind string,
 		if at.Kind != kind || !calleeMatches(at.Callee, name) {
 			continue
 		}
+		e.atMatched[at] = true
 		ex, err := at.Clause.Parse()
 		if err != nil {
 			e.c.Unsupported("%v", err)
@@ -801,6 +802,7 @@ func (e *Eval) atClosure(fr *Frame, x *ssa.MakeClosure, binds []Val, st *State, 
 		if at.Kind != "requires" || !calleeMatches(at.Callee, name) {
 			continue
 		}
+		e.atMatched[at] = true
 		ex, err := at.Clause.Parse()
 		if err != nil {
 			e.c.Unsupported("%v", err)
@@ -834,6 +836,7 @@ func (e *Eval) atGhost(fr *Frame, cc *ssa.CallCommon, name, site string, args []
 		if at.Kind != "ghost" || !calleeMatches(at.Callee, name) {
 			continue
 		}
+		e.atMatched[at] = true
 		env := e.newEnv(e.rootPkg, st, e.entry)
 		e.bindParams(env, e.root)
 		e.bindCells(env, e.root)
